@@ -88,3 +88,38 @@ def add_grid_to(chk, r, n, **kw):
     if st:
         k, dis, keys, samples = st
         chk.corr(GRID_NAME, k, dis, keys, samples)
+
+
+# ----------------------------------------------------------------------------- ParallelTemperingOptimizer, complete model
+
+PT_NAME = ("whole optimizer ParallelTemperingOptimizer (round-robin over complete SimulatedAnnealing systems, swap draws): GFO.Model.Population "
+           "driven through the driver model by the recorded shared tape must emit the same positions, rows, trace, best result, the outer and every "
+           "system's tracker and consume the tape exactly")
+
+
+def pt_stage(chk, r, n, constraint_p=0.4, nonfinite_p=0.0):
+    sps = []
+    for _ in range(n):
+        sp = bkgen.scenario(r, "ParallelTemperingOptimizer", constraint_p=constraint_p, nonfinite_p=nonfinite_p)
+        sp["opt_kwargs"]["n_iter_swap"] = r.choice([1, 2, 5, 10])
+        sps.append(sp)
+    dis, keys, samples = [], set(), []
+    k = 0
+    for i in range(0, len(sps), 60):
+        for s, o in loc.run_batch(sps[i:i + 60], loc.run_pt_scenario):
+            k += 1
+            raised = any(rc["exc"] is not None for rc in o["real"]["records"])
+            keys.add((s["opt_kwargs"].get("population"), s["opt_kwargs"]["n_iter_swap"], bool(s.get("constraint")), tuple(sorted(o["tape_kinds"])),
+                      "raised" if raised else "ok"))
+            if o["diff"] is not None:
+                dis.append(dict(case=s, diff=o["diff"]))
+            elif len(samples) < 2:
+                samples.append(dict(kwargs=s["opt_kwargs"], tape_entries=o["tape_len"], tape_kinds=o["tape_kinds"]))
+    return k, dis, keys, samples
+
+
+def add_pt_to(chk, r, n, **kw):
+    st = chk.stage("whole-optimizer parallel tempering correspondence", pt_stage, chk, r, n, **kw)
+    if st:
+        k, dis, keys, samples = st
+        chk.corr(PT_NAME, k, dis, keys, samples)
